@@ -71,6 +71,13 @@ def cvar_do_wait(R, prog):
     for nid, idx, ev in G.events():
         if fp_call_of(ev, unlock):
             R.violated(P + '.K8', P + '.K8:photon::cvar_do_wait:direct-unlock', f.id, ev.loc(), 'user lock released directly: %s' % ev.show())
+    # the verdict (0 = notified, ETIMEDOUT only for a sleep that ran to its deadline) is the translation of the SLEEP's own result:
+    # nothing may overwrite it between the sleep and the translation (a waiter that was notified has consumed the notification)
+    sleep_results = K.locals_defined_only_by(f, r'^photon::thread_usleep_defer\(.*\)$')
+    K.check_at(R, P + '.K11', G, res, lambda ev: ev.kind == 'call' and ev.callee() == 'photon::waitq_translate_errno',
+               require=lambda st, ev: ev.arg_path(0) in sleep_results,
+               key_fn=lambda ev: P + '.K11:photon::cvar_do_wait:verdict-is-the-sleep-result',
+               describe=lambda ev: 'waitq_translate_errno() receives the value returned by thread_usleep_defer, unmodified', min_sites=1, what='waitq_translate_errno')
     K.check_at(R, P + '.K6', G, res, lambda ev: (K.returned_call(ev) or (ev.kind == 'return' and ev.depth == 0 and not
                                                   (ev.f.x(ev.f.skip(ev.e['sub'])) or {}).get('k') == 'call')),
                require=lambda st, ev: 'S:sleep' not in st or any(('G:%s=F' % n) in st for n in lockret) or
